@@ -50,6 +50,10 @@ Definition covers (k k' : key) : bool := seqb k k' || under k k'.
 (** Delete(k): os.RemoveAll / prefix delete *)
 Definition remove (k : key) (s : store) : store :=
   filter (fun e => negb (covers k (fst e))) s.
+(** a Delete(k) that fails half-way: everything k covers goes, except the keys of [keep] *)
+Definition memk (k : key) (l : list key) : bool := existsb (seqb k) l.
+Definition removep (k : key) (keep : list key) (s : store) : store :=
+  filter (fun e => negb (covers k (fst e)) || memk (fst e) keep) s.
 (** Store(k, n) of a terminal key *)
 Definition put (k : key) (n : node) (s : store) : store :=
   (k, n) :: filter (fun e => negb (seqb (fst e) k)) s.
@@ -105,7 +109,14 @@ Record env := Env {
   efaults : list nat;       (* indices of calls that TAKE EFFECT and report an error (a time-out after the
                                back-end did the work); only Delete and Store have an effect to take *)
   cancel_at : option nat;   (* ctx is cancelled when this call begins *)
-  lfe : bool                (* List of a terminal key: empty listing (FileStorage) or error *)
+  lfe : bool;               (* List of a terminal key: empty listing (FileStorage) or error *)
+  pfaults : list (nat * list key);
+                            (* calls that take effect IN PART and report an error: a Delete (os.RemoveAll) that
+                               removes what it covers except the listed keys, then fails *)
+  kill_at : option nat      (* the cleaner's process dies when this call begins: this call and all later
+                               ones have no effect (as far as the storage is concerned a dead process and one
+                               all of whose calls fail are the same; [Kill.v] relates this to the run that
+                               simply stops, without Unlock) *)
 }.
 Record opts := Opts {
   interval : Z; do_ocsp : bool; do_certs : bool; grace : Z; inst : str
@@ -115,7 +126,15 @@ Inductive opk := KLock | KUnlock | KLoad | KList | KStat | KDelete | KStore.
 Record event := Ev { ev_kind : opk; ev_key : key; ev_ok : bool }.
 Record st := St { sto : store; lg : list event (* newest first *) }.
 
-Definition faulty (e : env) (s : st) : bool := existsb (Nat.eqb (length (lg s))) (faults e).
+Definition dead (e : env) (s : st) : bool :=
+  match kill_at e with Some n => (n <=? length (lg s))%nat | None => false end.
+Definition faulty (e : env) (s : st) : bool := existsb (Nat.eqb (length (lg s))) (faults e) || dead e s.
+Fixpoint assoc_nat {A} (i : nat) (l : list (nat * A)) : option A :=
+  match l with
+  | [] => None
+  | (j, x) :: r => if Nat.eqb j i then Some x else assoc_nat i r
+  end.
+Definition pfaulty (e : env) (s : st) : option (list key) := assoc_nat (length (lg s)) (pfaults e).
 Definition efaulty (e : env) (s : st) : bool := existsb (Nat.eqb (length (lg s))) (efaults e).
 Definition cancelled (e : env) (s : st) : bool :=
   match cancel_at e with Some c => (c <? length (lg s))%nat | None => false end.
@@ -162,8 +181,12 @@ Definition do_stat (e : env) (k : key) (s : st) : stat_res * st :=
 
 Definition do_delete (e : env) (k : key) (s : st) : bool * st :=
   if faulty e s then (false, logged KDelete k false (sto s) s)
-  else if efaulty e s then (false, logged KDelete k false (remove k (sto s)) s)
-  else (true, logged KDelete k true (remove k (sto s)) s).
+  else match pfaulty e s with
+       | Some keep => (false, logged KDelete k false (removep k keep (sto s)) s)
+       | None =>
+           if efaulty e s then (false, logged KDelete k false (remove k (sto s)) s)
+           else (true, logged KDelete k true (remove k (sto s)) s)
+       end.
 
 (** Store of a terminal key; fails on an existing directory (rename over a directory) *)
 Definition do_store (e : env) (k : key) (n : node) (s : st) : bool * st :=
